@@ -354,6 +354,8 @@ def lib_wac():
                    "exports": [("f", fA), ("ns:p/i", Ii), ("ns:p/k@1.0.0", Ik), ("ns:q/j", Ii), ("ns:r/j", Ik), ("g", fB), ("h", Ii)]},
             # an import named like a plain export of the provider next to a path ending in `/i`
             "wt": {"name": "test:tgt", "version": None, "imports": [("h", Ii), ("ns:p/i", Ii)], "exports": [("run", fA)]},
+            # C11: imports a lower version than the target world of package ns:v@1.2.0 offers
+            "wv": {"name": "test:vcons", "version": None, "imports": [("ns:v/i@1.0.0", Ii)], "exports": [("run", fA)]},
             "wc": {"name": "test:cons", "version": None,
                    "imports": [("f", fA), ("ns:p/i", Ii), ("ns:p/k@1.0.0", Ik)], "exports": [("run", fA), ("ns:p/out", Ii)]},
             # two imports end in `/i`
@@ -363,10 +365,10 @@ def lib_wac():
                    "imports": [("ns:p/i", Ii)], "exports": [("ns:p/k@1.0.0", Ik), ("f", fA)]},
         },
         "kinds": {"fA": fA, "fB": fB, "Ii": Ii, "Ik": Ik},
-        "import_names": ["f", "i", "k", "ns:p/i", "my-i", "bad name"],
+        "import_names": ["f", "i", "k", "z", "ns:p/i", "ns:v/i@1.2.0", "my-i", "bad name"],
         "export_names": ["run", "r2", "f", "g", "h", "i", "k", "ns:p/i", "ns:p/k@1.0.0", "ns:q/j", "ns:r/j", "ns:p/out", "bad name"],
         "def_names": [],
-        "valid_names": ["f", "i", "k", "ns:p/i", "my-i", "run", "r2", "g", "h", "ns:p/k@1.0.0", "ns:q/j", "ns:r/j", "ns:p/out"],
+        "valid_names": ["f", "i", "k", "z", "ns:p/i", "my-i", "run", "r2", "g", "h", "ns:p/k@1.0.0", "ns:q/j", "ns:r/j", "ns:p/out"],
         "deftypes": {},
     }
 
